@@ -60,8 +60,10 @@ def method_names():
     return sorted(names | {"nope"})
 
 
-def call_line(recv, meth, args):
-    return "try { print(type(%s.%s(%s))); } catch e { print(type(e)); }" % (recv, meth, ", ".join(args))
+def call_line(recv, meth, args, ctx=True):
+    # the context names the failure (wrong arity vs. wrong receiver vs. wrong argument type)
+    return "try { print(type(%s.%s(%s))); } catch e { print(type(e)); %s}" % (recv, meth, ", ".join(args),
+                                                                            "print(e.context); " if ctx else "")
 
 
 def sweep_programs(rng, quick):
